@@ -8,6 +8,7 @@
 
 #include <cxxabi.h>
 #include <sys/auxv.h>
+#include <functional>
 #include <map>
 #include <memory>
 
@@ -89,6 +90,7 @@ int main(int argc, char** argv)
     std::map<int, std::unique_ptr<nitro::dl::dl>> dls;
     std::map<int, std::unique_ptr<sym_t>> syms;
     std::map<int, std::shared_ptr<void>> handles; // copies of dl::get()
+    std::map<int, std::function<double(double)>> fns; // symbols stored in std::function objects
     std::string line;
     while (std::getline(std::cin, line))
     {
@@ -103,11 +105,13 @@ int main(int argc, char** argv)
                 dls.clear();
                 syms.clear();
                 handles.clear();
+                fns.clear();
                 begin_case(w, 20.0);
             }
             else if (c == "END")
             {
                 syms.clear();
+                fns.clear();
                 handles.clear();
                 dls.clear();
                 out("X ok");
@@ -239,6 +243,41 @@ int main(int argc, char** argv)
                         *syms[dst] = std::move(tmp);
                     }
                     out("L ok");
+                }
+            }
+            else if (c == "FNHOLD")
+            {
+                // FNHOLD <fslot> <symslot>: the symbol, seen through a const reference, is stored in a
+                // std::function of its own signature (copy-initialisation, as when it is passed to a callback
+                // registry): the std::function is one more copy of the symbol
+                int fs = std::atoi(w[1].c_str()), ss = std::atoi(w[2].c_str());
+                if (!syms.count(ss))
+                    out("L skip");
+                else
+                {
+                    const sym_t& cs = *syms[ss];
+                    std::function<double(double)> f = cs;
+                    fns.erase(fs);
+                    fns[fs] = std::move(f);
+                    out("L ok");
+                }
+            }
+            else if (c == "FNDROP")
+            {
+                fns.erase(std::atoi(w[1].c_str()));
+                out("D ok");
+            }
+            else if (c == "FNCALL")
+            {
+                int fs = std::atoi(w[1].c_str());
+                if (!fns.count(fs))
+                    out("C skip");
+                else
+                {
+                    double r = fns[fs](std::atof(w[2].c_str()));
+                    char buf[64];
+                    std::snprintf(buf, sizeof buf, "C ok %.17g", r);
+                    out(buf);
                 }
             }
             else if (c == "DROPSYM")
